@@ -272,6 +272,8 @@ func checkC19(c *Ctx, r *Report) {
 	r.rule("output-fixed", 2, "Prog.output and vm.output are set once at construction (newProg / execute's literal) and never reassigned")
 	c.ownership(r, "output-fixed", "Prog", "output", map[string]string{"newProg": "construction", "execute": "handed to the vm", "Prog.disasm": "listing", "Prog.disasmInstr": "listing"}, true)
 	c.ownership(r, "output-fixed", "vm", "output", map[string]string{"execute": "construction"}, true)
+	// the observers cannot panic on arithmetic of their own (statistics are derived with divisions)
+	ruleIntDivGuard(c, r, "observer-div", c.reachFromEntries(roots), divDelegated)
 	ruleTraceCount(c, r, "trace-count")
 	ruleShape(c, r, "decode-agreement", true, false)
 	r.rule("options", 3, "OptDisasm/OptTrace/OptStats only set their flag")
